@@ -2,6 +2,7 @@ package flowcontrol
 
 import (
 	"fmt"
+	"math"
 	"strings"
 	"sync"
 	"sync/atomic"
@@ -61,6 +62,11 @@ func (f *globalMaxInflight) ReleaseN(instance string, n int32) {
 func (f *globalMaxInflight) add(n int32) int32 {
 	count := atomic.AddInt32(&f.count, n)
 	max := atomic.LoadInt32(&f.max)
+	if n > 0 && count < n {
+		// the count was not negative before, so the sum wrapped around int32:
+		// report it as over the limit instead of as a negative count
+		return math.MaxInt32
+	}
 	return count - max
 }
 
